@@ -276,6 +276,14 @@ def run_shard(spec, shard):
                     f = examine(case)
                     if f:
                         shard.fail(f["bucket"], case, f)
+            for pat in ("ab", "a", "1", "true", "null", "x_y", "a.b", ""):
+                for delivery in ("literal", "doc"):
+                    case = {"fn": fn, "pattern": pat, "delivery": delivery,
+                            "subjects": [[pat], {pat: 1}, [pat, "x"], {"k": pat}, [[pat]], pat, pat + pat, [], {}]}
+                    shard.case(key=(fn, pat, delivery, "container"), nontrivial=True, classes={"container-subject-holding-pattern"}, sample=case)
+                    f = examine(case)
+                    if f:
+                        shard.fail(f["bucket"], case, f)
             for ns in NON_STRINGS:
                 case = {"fn": fn, "pattern": "a*", "delivery": "doc", "subjects": [ns, "a", "<missing>"]}
                 shard.case(key=(fn, repr(ns), "subj"), nontrivial=True, classes={"non-string-subject"}, sample=case)
